@@ -10,7 +10,7 @@ Open Scope N_scope.
 
 (* what the future of a request may end as *)
 Inductive expect :=
-| EExit                 (* never answered, never cancelled: must fail with the exit error *)
+| EExit                 (* never (decodably) answered, never cancelled: must fail with the exit error *)
 | EKeep (f : fstate)    (* done before the server died (answered and read, or cancelled): unchanged *)
 | EExitOr (f : fstate)  (* the answer was written but not yet read when the server died: either *)
 | ENotPending           (* as above and cancelled while the client was noticing: anything but pending *)
@@ -116,12 +116,20 @@ Fixpoint replies_known (n : N) (evs : list event) : bool :=
   | [] => true
   | Send :: r => replies_known (n + 1) r
   | SrvWrite (Reply i _) :: r => (i <? n) && replies_known n r
+  | SrvWrite (BadReply i) :: r => (i <? n) && replies_known n r
   | _ :: r => replies_known n r
   end.
 
+Fixpoint count_xtask (evs : list event) : nat :=
+  match evs with
+  | [] => O
+  | e :: r => if is_xtask e then S (count_xtask r) else count_xtask r
+  end.
+
+(* the exit watcher gets two runs (a hook that suspends needs the second one) *)
 Definition wf_conv (evs : list event) : bool :=
   replies_known 0 evs &&
   match after_exit evs with
-  | Some rest => existsb is_reader rest && existsb is_xtask rest
+  | Some rest => existsb is_reader rest && Nat.leb 2 (count_xtask rest)
   | None => false
   end.
